@@ -2,6 +2,7 @@ package c06
 
 import (
 	"crypto/tls"
+	"errors"
 	"fmt"
 	"net"
 	"strings"
@@ -159,6 +160,10 @@ func runHW(c HWCase) error {
 			if !ok {
 				if rerr == nil && line != "" {
 					return fmt.Errorf("step %d: ClientHello for %q matches no live https route but was bridged to %q (table %v)", i, op.Host, line, tableList(table))
+				}
+				var ne net.Error
+				if errors.As(rerr, &ne) && ne.Timeout() {
+					return fmt.Errorf("step %d: ClientHello for %q matches no live https route; the connection was neither bridged nor closed within 3 s (table %v)", i, op.Host, tableList(table))
 				}
 				continue
 			}
